@@ -81,8 +81,7 @@ func Integer(schema interface{}) parser.Func {
 			}
 			intValue, err := strconv.ParseInt(string(result), 0, 64)
 			if err != nil {
-				// This should never happen
-				panic(fmt.Sprintf("Could not convert %s to integer", string(result)))
+				return nil, data.EmptyIntSet, parsley.NewErrorf(pos, "invalid integer value")
 			}
 			return NewIntegerNode(schema, intValue, pos, readerPos), data.EmptyIntSet, nil
 		}
